@@ -11,7 +11,8 @@ EXPLANATION = ("R14.1 every destructive file-system effect (remove_file, rename,
                "all documented conjuncts, each decided on whole-function tables of the listing and of filter_files (per listed element: kept iff every conjunct holds; closures, named helpers or a loop give the same rows): regular file; file name starts with the fixed part; suffix = "
                "extension compared for equality with the requested suffix; the stem continues after the fixed part with the `_` separator; the "
                "non-empty text up to the first `.` is handed to the infix predicate; the infix predicates evaluated on sample infixes; R14.3 "
-               "destructive effects are confined to the file-log-writer state modules (plus the two listed append/create_new exceptions). R14.2 also: writer/reader agreement on the suffix (F27), the timestamp predicate parses the WHOLE infix (no remainder), no dot-cut before the fixed part is stripped.")
+               "destructive effects are confined to the file-log-writer state modules (plus the two listed append/create_new exceptions). R14.2 also: writer/reader agreement on the suffix (F27), the timestamp predicate parses the WHOLE infix (no remainder), no dot-cut before the fixed part is stripped."
+               " R14.4 (shared with R06.4): the name-collision test examines exactly the own candidates (plain, .gz, family restart siblings), not a coarser listing a near miss can enter.")
 ASSUMPTIONS = ["Path::extension / file_stem / str::strip_prefix semantics (std)", "numbering/timestamp derivation from the filtered listing is C06's subject"]
 NOT_DECIDED = ["that foreign files change nothing about numbering and timestamps for every name set (value dependent)", "metadata preservation"]
 FLOORS = {'R14.1': 10, 'R14.2': 6, 'R14.3': 8}
